@@ -86,6 +86,8 @@ class Ops:
             return len(self.st.heap[(v.ref, "items")]) > 0
         if isinstance(v, VSeq):
             return z3.Length(self.st.heap[(v.ref, "seq")]) > 0
+        if getattr(v, "kind", "") == "mapped":
+            return self.truth(v.base)
         if isinstance(v, VSet):
             return self.st.heap[(v.ref, "set")] != z3.K(v_sort(v.elem), z3.BoolVal(False))
         if isinstance(v, VMap):
@@ -178,6 +180,8 @@ class Ops:
         if isinstance(a, VMap) and isinstance(b, VMap):
             return z3.And(self.st.heap[(a.ref, "dom")] == self.st.heap[(b.ref, "dom")],
                           self.st.heap[(a.ref, "val")] == self.st.heap[(b.ref, "val")])
+        if getattr(a, "kind", "") == "raw" and getattr(b, "kind", "") == "raw":
+            return a.term == b.term
         if isinstance(a, VClass) and isinstance(b, VClass):
             return a.name == b.name
         if isinstance(a, VFunc) and isinstance(b, VFunc):
